@@ -346,6 +346,10 @@ def run(tier, v):
         raise vlib.Infra("DestGen exported no names / no escaping cases")
     names = sorted({tuple("/".join(e) for e in n) for n in nl[0]})
     names = [list(n) for n in names]
+    # names that climb out and come down again into a *sibling whose name begins like the destination's* ("dst"): a
+    # containment test by string prefix would let them pass
+    names += [["..", "dst.bak", "notes.txt"], ["d", "..", "..", "dst-evil", "sub"], ["..", "dstx"], ["d", "..", "..", "dst.bak"],
+              ["..", "dst-evil"]]
     cov["ascoded_model_states"] = g["distinct"]
     cov["ascoded_escaping_cases_exported"] = len(escapes)
     cov["names_in_universe"] = len(names)
